@@ -759,13 +759,17 @@ func calAndSetEventNode(e *Expr) {
 			isFastOp = n.getNodeType() == fastOperator
 		)
 		return func(ctx *Ctx, params []Value) (res Value, err error) {
+			// the evaluator reuses the params buffer of binary operators,
+			// so the event gets its own copy of the arguments
+			args := make([]Value, len(params))
+			copy(args, params)
 			res, err = op(ctx, params)
 			e.EventChan <- Event{
 				EventType: OpExecEvent,
 				Data: OpEventData{
 					IsFastOp: isFastOp,
 					OpName:   name,
-					Params:   params,
+					Params:   args,
 					Res:      res,
 					Err:      err,
 				},
